@@ -343,6 +343,53 @@ func mountScenarios() []vrt.Scenario {
 	return []vrt.Scenario{handle, use}
 }
 
+// ---- pre-routing middleware ---------------------------------------------------------------
+
+// A middleware mounted with Use runs BEFORE chi routes the request; Vars and ResolvePattern
+// then match the request on a scratch route context (mux.ensureContext). The middleware records
+// what it sees before and after calling next, the handler what it sees once routed.
+func preRoutingMux() *muxEnv {
+	m := goahttp.NewMuxer()
+	e := &muxEnv{mux: m}
+	show := func(vars map[string]string) string {
+		var ks []string
+		for k, v := range vars {
+			ks = append(ks, k+"="+v)
+		}
+		sort.Strings(ks)
+		return strings.Join(ks, ",")
+	}
+	m.Use(func(next http.Handler) http.Handler {
+		return http.HandlerFunc(func(w http.ResponseWriter, r *http.Request) {
+			w.Header().Set("X-Mw-Before", "vars["+show(m.Vars(r))+"] pattern["+m.ResolvePattern(r)+"]")
+			next.ServeHTTP(w, r)
+		})
+	})
+	h := func(tag string) http.HandlerFunc {
+		return func(w http.ResponseWriter, r *http.Request) {
+			w.Header().Set("X-Handler", tag+" vars["+show(m.Vars(r))+"] pattern["+m.ResolvePattern(r)+"]")
+			w.WriteHeader(http.StatusOK)
+		}
+	}
+	m.Handle("GET", "/t/{tenant}/items/{id}", h("item"))
+	m.Handle("GET", "/files/{*rest}", h("file"))
+	m.Handle("PUT", "/files/{*where}", h("put-file"))
+	return e
+}
+
+func preRoutingScenario(name, doc string, threads ...[]reqSpec) vrt.Scenario {
+	sc := vrt.Scenario{Name: name, Doc: doc, Family: "c20A", Setup: func() any { return preRoutingMux() }}
+	for _, reqs := range threads {
+		sc.Threads = append(sc.Threads, serve(reqs...))
+		var l []string
+		for _, r := range reqs {
+			l = append(l, r.method+" "+r.path)
+		}
+		sc.Labels = append(sc.Labels, "ServeHTTP(mw:Vars+ResolvePattern; "+strings.Join(l, "+")+")")
+	}
+	return sc
+}
+
 // ---- samplers -------------------------------------------------------------------------
 
 type samplerEnv struct{ s middleware.Sampler }
@@ -480,6 +527,13 @@ func Scenarios() []vrt.Scenario {
 		thorough(adaptiveScenario("c20A/sampler-adaptive-3t-2calls", 3, 2, 2, 2)),
 		fixedScenario(),
 		mergeScenario(),
+
+		preRoutingScenario("c20A/mux-prerouting-middleware-params", "a middleware mounted with Use calls Vars / ResolvePattern before chi has routed: two requests on one param pattern, different values",
+			[]reqSpec{{method: "GET", path: "/t/acme/items/1"}}, []reqSpec{{method: "GET", path: "/t/globex/items/22"}}),
+		preRoutingScenario("c20A/mux-prerouting-middleware-mixed", "pre-routing Vars / ResolvePattern: a param pattern against a catch-all, and a second catch-all with another wildcard name",
+			[]reqSpec{{method: "GET", path: "/t/acme/items/1"}, {method: "PUT", path: "/files/up/load.bin"}}, []reqSpec{{method: "GET", path: "/files/dir1/file15.txt"}}),
+		thorough(preRoutingScenario("c20A/mux-prerouting-middleware-3t", "pre-routing Vars / ResolvePattern, three requests in flight",
+			[]reqSpec{{method: "GET", path: "/t/acme/items/1"}}, []reqSpec{{method: "GET", path: "/files/a/b/c"}}, []reqSpec{{method: "GET", path: "/t/initech/items/333"}})),
 
 		// thorough tier only: three threads x two operations, mixed helpers
 		thorough(errorEncoderScenario("c20A/error-encoder-nil-formatter-3t-2calls", "three threads, two error responses each, json/xml/plain text negotiation", false,
